@@ -15,9 +15,10 @@ SPEC = {
         ('K-next(emitting score, stop rule)', 'next', '^(score:emitting|stop:|cutoff:|fields:(length|prev|obs))'),
         ('K-first', 'first', '^(score:|stop:|cutoff:|wiring:)'),
         ('K-stop', 'do_stop', '.'),
-        ('K-trans(first-order models)', 'trans', '^trans:formula')],
+        ('K-trans(first-order models)', 'trans', '^trans:formula'),
+        ("_match_states(complete successor generation per live predecessor: foreach rule)", 'match_states', r'^(cover:|select:|insert:)')],
     'bounded': [
-        ('all-walks-optimum', suites.case_C01, 400, 6000, RULE + '; ' + 'non-trivial = at least 2 observations explainable and at least 2 edges; emitting-only, no width pruning, avoid_goingback off', 'graphs <= 5 nodes, traces <= 4 observations (enumeration is exponential)')],
+        ('all-walks-optimum', suites.case_C01, 1500, 25000, RULE + '; ' + 'non-trivial = at least 2 observations explainable and at least 2 edges; emitting-only, no width pruning, avoid_goingback off', 'graphs <= 5 nodes, traces <= 4 observations (enumeration is exponential)')],
 }
 
 
